@@ -56,7 +56,8 @@ ADDED3 = {
            'parse_and_get_code and _check_fs (shared): the text a refactoring rewrites is the text given / the file\'s own bytes.',
     'C09': '_load_python_module: parse through the cache with the file as source; tree and code lines of one cache entry; '
            'parse_and_get_code: the text parsed is the text given or the file as it is now.',
-    'C08': 'signature_time_cache wrapper (hit only for an equal, unexpired key; None never stored); parse_and_get_code (shared).',
+    'C08': 'signature_time_cache wrapper (hit only for an equal, unexpired key; None never stored); parse_and_get_code (shared); '
+           'Completion._complete_trailer (the never-invalidated completion cache is switched on for the four named packages only).',
     'C11': 'TreeSignature.get_param_names / bind (self removed after star resolution); keyword-only loop of process_params '
            '(first collected parameter wins); docstring / tree-name replay libraries.',
     'C13': 'filter_names shared with C04 (a name is dropped only as an identical duplicate); key listing replay.',
@@ -65,9 +66,11 @@ ADDED3 = {
            'arguments; kind of module loaded), transform_path_to_dotted (a shortest candidate, package flag), '
            '_find_module_py33 (interpreter-wide fallback only without a search path), ModuleMixin.star_imports closure '
            '(direct and transitive, unbounded).',
-    'C12': 'Structural: the helper gets exactly the caller-configured environment variables; os.environ is read-only.',
+    'C12': 'Structural: the helper gets exactly the caller-configured environment variables; os.environ is read-only. '
+           'Project.get_environment (the helper\'s interpreter is the configured or the default one); Project._get_sys_path '
+           'shared with C20 (the memoised base path, which is also the import whitelist, is never extended in place).',
     'C14': 'Shared with C08: global-state inventory and the per-call signature cache key (nothing a disturbed query '
-           'remembered outlives its Script).',
+           'remembered outlives its Script); structural: the stderr queue is unbounded (cleanup cannot hang in thread.join).',
     'C15': '_memoize_default wrapper (default stored before the function is entered; hit without entering; no stale default '
            'after an exception), _limit_value_infers wrapper (per-node cap), memoised-generator round (sentinel in place '
            'while the generator runs); guarded cores only reachable through their guard (inventory); '
@@ -79,7 +82,8 @@ ADDED3 = {
     'C17': '_load_python_module (shared with C09); tree names spelled and positioned as their token (replayed on non-NFKC '
            'identifiers); Script reads its file as bytes.',
     'C18': 'create_instance_context: the context of a self.x definition is the method context refined to the innermost '
-           'scope around the assignment (1-3 scopes between assignment and class body).',
+           'scope around the assignment (1-3 scopes between assignment and class body); FunctionValue.from_context: the '
+           'value (context) of a function node is built for that node, @overload declarations only ride along.',
     'C19': 'FolderIO.walk pruning: exactly the entries of removed folders are deleted from os.walk\'s list, others kept '
            'in order (all subsets of <= 3 sub-folders; replayed on a real directory); search_in_file_ios: exactly the '
            'passing files in scan order until a limit.',
